@@ -655,7 +655,9 @@ META = {
     "level": "proof",
     "technique": "decision-table extraction from the lexer's MIR (token and "
                  "character switches) compared through the grammar's "
-                 "terminal map; grammar production census",
+                 "terminal map; grammar production census; def-use check that "
+                 "no `char` constant reaches the scanner's current-character "
+                 "field",
     "trusted_base": ["rustc MIR", "LALRPOP's printed normal form"],
     "assumptions": ["whitespace/comment skipping, `_` separators, \\xHH "
                     "equivalence and position shifts are not decided"],
